@@ -149,9 +149,11 @@ class Gen:
 
     # ---- classes
     def new_class(self, kind: int, fields: Optional[List[list]] = None, base: str = "", hashable: bool = False,
-                  slots: bool = False) -> dict:
+                  slots: bool = False, parent: Optional[int] = None) -> dict:
         c = {"id": self.cid(), "kind": kind, "hashable": hashable, "slots": slots,
              "fields": fields or [], "base": base}
+        if parent is not None:
+            c["parent"] = parent     # a subclass of the (dataclass / NamedTuple) class with that id
         if kind == 2:
             c["hashable"] = True
         if kind == 3:
